@@ -8,7 +8,12 @@ import (
 
 func BuildMethodParameters(parameters parser.IFormalParametersContext) []core_domain.CodeProperty {
 	var methodParams []core_domain.CodeProperty = nil
-	parameterList := parameters.GetChild(1).(*parser.FormalParameterListContext)
+	// a receiver parameter (`void m(Foo this)`) is not a parameter; the list, when present, follows it
+	parametersCtx, ok := parameters.(*parser.FormalParametersContext)
+	if !ok || parametersCtx.FormalParameterList() == nil {
+		return nil
+	}
+	parameterList := parametersCtx.FormalParameterList().(*parser.FormalParameterListContext)
 	formalParameter := parameterList.AllFormalParameter()
 	for _, param := range formalParameter {
 		paramContext := param.(*parser.FormalParameterContext)
